@@ -29,8 +29,39 @@ func (c *notCond) check() error {
 func (c *notCond) string() string {
 	next := c.notC.string()
 	if strings.HasPrefix(next, "(") {
-		return fmt.Sprintf("not %s", c.notC.string())
+		return fmt.Sprintf("not %s", next)
 	}
-	splitted := strings.Split(next, " ")
-	return strings.Join(append([]string{splitted[0], "not"}, splitted[1:]...), " ")
+	if isNegation(c.notC) {
+		// a negated negation has no infix form
+		return fmt.Sprintf("not (%s)", next)
+	}
+	// insert "not" after the (possibly quoted) key
+	keyEnd := strings.Index(next, " ")
+	if strings.HasPrefix(next, "\"") {
+		for i := 1; i < len(next); i++ {
+			if next[i] == '\\' {
+				i++
+			} else if next[i] == '"' {
+				keyEnd = i + 1
+				break
+			}
+		}
+	}
+	if keyEnd < 0 {
+		return fmt.Sprintf("not (%s)", next)
+	}
+	return next[:keyEnd] + " not" + next[keyEnd:]
+}
+
+// isNegation reports whether the condition prints as a negated clause, looking through groups of one.
+func isNegation(c Condition) bool {
+	switch v := c.(type) {
+	case *notCond:
+		return true
+	case *andCond:
+		return len(v.conditions) == 1 && isNegation(v.conditions[0])
+	case *orCond:
+		return len(v.conditions) == 1 && isNegation(v.conditions[0])
+	}
+	return false
 }
